@@ -2,6 +2,7 @@ mod cnf_replay;
 mod bdd_rec;
 mod cli_rec;
 mod extra_rec;
+mod machine_rec;
 mod ffi_rec;
 mod ser_rec;
 mod pure_rec;
@@ -33,6 +34,7 @@ fn main() {
         (Some("record"), Some("orders")) => pure_rec::record_orders(&args),
         (Some("record"), Some("semiring")) => pure_rec::record_semiring(&args),
         (Some("record"), Some("extras")) => extra_rec::record(&args),
+        (Some("record"), Some("machine")) => machine_rec::record(&args),
         (Some("record"), Some("ser")) => ser_rec::record(&args),
         (Some("record"), Some("ffi")) => ffi_rec::record(&args),
         (Some("record"), Some("cli")) => cli_rec::record(&args),
